@@ -83,7 +83,7 @@ struct World {
     cur_req: usize,
     dropping: usize,
     events: Vec<Event>,
-    cleanups: Vec<(i64, i64, i64)>, // (request, id, request being finished when it ran)
+    cleanups: Vec<(i64, i64, i64)>, // (request, id, request whose action was running when it ran)
     roots: Vec<(usize, usize)>,     // (Owner::debug_id of a root, request)
     canaries: BTreeMap<usize, StoredValue<i64>>,
 }
@@ -146,6 +146,7 @@ const K_ASYNC: i64 = 3;
 const K_FETCH_PRE: i64 = 4;
 const K_FETCH_POST: i64 = 5;
 const K_ITEM: i64 = 6;
+const K_DYNL: i64 = 7;
 
 /// request (1-based) the ambient owner belongs to; 0 = no owner, 99 = an owner of no request
 fn ambient_owner_req() -> i64 {
@@ -209,6 +210,7 @@ fn probe(env: &Env, probe: i64, kind: i64, slot: Option<i64>) -> String {
 ///  (9 id child)        on_cleanup logging `id`
 ///  (10 slot child)     StoredValue (slot < 100) / RwSignal (slot >= 100) allocation
 ///  (11 p slot)         leaf reading that handle
+///  (12 p)              like (2 p); used where the rendering owner does not depend on timing
 fn build(p: &Sexp, env: &Env) -> AnyView {
     let r = env.req as i64;
     match p.at(0).num() {
@@ -290,7 +292,8 @@ fn build(p: &Sexp, env: &Env) -> AnyView {
             on_cleanup(move || {
                 W.with(|w| {
                     let mut w = w.borrow_mut();
-                    let d = w.dropping as i64;
+                    // the request whose action (poll / finish) is executing right now
+                    let d = w.cur_req as i64;
                     w.cleanups.push((r, id, d));
                 })
             });
@@ -308,6 +311,13 @@ fn build(p: &Sexp, env: &Env) -> AnyView {
             build(p.at(2), env)
         }
         11 => probe(env, p.at(1).num(), K_ITEM, Some(p.at(2).num())).into_any(),
+        12 => {
+            // a reactive closure in a position where the owner it is rendered under is fixed
+            // (not directly in the view a Suspend outside any Suspense resolves to)
+            let env = env.clone();
+            let id = p.at(1).num();
+            (move || probe(&env, id, K_DYNL, None)).into_any()
+        }
         _ => "x".into_any(),
     }
 }
@@ -868,11 +878,12 @@ fn run_world(progs: &[Sexp], active: &[usize], o: &Opts, plan: Plan) -> RunOut {
     };
     let html = reqs.iter().map(|q| q.html.clone()).collect();
     let finished = reqs.iter().map(|q| q.finished()).collect();
-    drop(reqs);
+    // snapshot before the teardown of whatever is still alive (an unfinished request's owner)
     let (events, cleanups) = W.with(|w| {
         let w = w.borrow();
         (w.events.clone(), w.cleanups.clone())
     });
+    drop(reqs);
     RunOut { html, finished, events, cleanups, ambient, acts, skipped, leftover_woken }
 }
 
